@@ -11,6 +11,8 @@ def run(ctx):
     from . import invariance
     invariance.rule_component_traversal(ctx)  # a list spread over several components: every component is merged in
     invariance.rule_component_extraction(ctx)  # ... searched from every listed argument
+    from . import progress as _progress
+    _progress.rule_query_scoped_decomposition(ctx)  # what is merged is the query list itself
     ctx.assume("modelled std functions of sa/tags.py (iterator adaptors, Vec push/append, vec!, iter::once/chain); everything else is reported as `cannot analyse`")
     ctx.assume("SAT semantics: a clause is a disjunction, assumptions are a conjunction")
     return (
